@@ -638,6 +638,15 @@ fn str_in_domain(s: &str) -> bool {
 }
 fn strs_in_domain(v: &SV) -> bool { !v.any(&|x| matches!(x, SV::Str(s) if !str_in_domain(s))) }
 
+/// `LitStr("\n")` / `LitStr("")`: their texts (`|` + one empty line, `|-` without content) are pinned by the crate's own tests and
+/// are a known class of their own (`litstr-lone-newline`); shrinking must not slide from another cause into these two texts
+fn pinned_litstrs(v: &SV) -> usize {
+    let mut n = 0;
+    fn walk(v: &SV, n: &mut usize) { if matches!(v, SV::LitStr(s) if s == "\n" || s.is_empty()) { *n += 1; } for c in v.children() { walk(c, n); } }
+    walk(v, &mut n);
+    n
+}
+
 fn shrink_case(v: &SV, o: &O, fails: &dyn Fn(&SV, &O) -> bool) -> (SV, O) {
     let mut cur = v.clone();
     let mut co = *o;
@@ -647,7 +656,8 @@ fn shrink_case(v: &SV, o: &O, fails: &dyn Fn(&SV, &O) -> bool) -> (SV, O) {
         for cand in shrinks(&cur) {
             if budget == 0 { break; }
             budget -= 1;
-            if cand.size() <= cur.size() && cand != cur && !has_dup_keys(&cand) && strs_in_domain(&cand) && fails(&cand, &co) {
+            if cand.size() <= cur.size() && cand != cur && !has_dup_keys(&cand) && strs_in_domain(&cand)
+                && pinned_litstrs(&cand) <= pinned_litstrs(&cur) && fails(&cand, &co) {
                 if cand.size() < cur.size() || cand.tokens().len() < cur.tokens().len() { cur = cand; progressed = true; break; }
             }
         }
@@ -687,7 +697,8 @@ fn classify(prop: &str, v: &SV, o: &O) -> String {
         if has(&|x| matches!(x, SV::Str(s) if y11(s)) || matches!(x, SV::UnitVariant(_, n) if y11(n))) { return id("yaml12-plain-yaml11-bool"); }
         return id("yaml12-no-document-start");
     }
-    if !o.braces && has(&|x| matches!(x, SV::Seq(e) | SV::Tuple(e) if e.is_empty()) || matches!(x, SV::Map(_, e) if e.is_empty()) || matches!(x, SV::Struct(e) if e.is_empty())) {
+    if !o.braces && has(&|x| matches!(x, SV::Seq(e) | SV::Tuple(e) | SV::TupleStruct(e) | SV::TupleVariant(_, e) if e.is_empty())
+                              || matches!(x, SV::Map(_, e) if e.is_empty()) || matches!(x, SV::Struct(e) | SV::StructVariant(_, e) if e.is_empty())) {
         return id("empty-no-braces");
     }
     if o.indent == 1 { return id("indent-step-1"); }
@@ -695,16 +706,50 @@ fn classify(prop: &str, v: &SV, o: &O) -> String {
     if o.compact { return id("compact-list-indent"); }
     if has(&|x| matches!(x, SV::Commented(_, c) if c.contains('\0'))) { return id("comment-nul-truncates"); }
     if has(&|x| matches!(x, SV::Commented(_, c) if c.contains(BREAKS))) { return id("comment-cr-injection"); }
-    if strs(&|s| s.contains(BREAKS)) && block { return id("litstr-cr"); }
+    // CR / NEL inside a block scalar (U+2028 / U+2029 are not line breaks for the YAML 1.2 scanner)
+    if strs(&|s| s.contains(['\r', '\u{85}'])) && block { return id("litstr-cr"); }
     if strs(&|s| s.contains('\0')) && block { return id("litstr-nul"); }
     if flow && has(&|x| matches!(x, SV::LitStr(_) | SV::FoldStr(_))) { return id("block-string-in-flow"); }
     if flow && has(&|x| matches!(x, SV::TupleVariant(..) | SV::StructVariant(..) | SV::TupleStruct(_) | SV::NewtypeVariant(..))) { return id("variant-in-flow"); }
+    if block && has(&|x| matches!(x, SV::SpaceAfter(_))) { return id("space-after-block-string"); }
+    if block && strs(&|s| s.trim_end_matches('\n').is_empty()) {
+        // two or more line breaks: the `|+` body (repaired); exactly "\n" / "": the pinned texts
+        if strs(&|s| s.trim_end_matches('\n').is_empty() && s.len() >= 2) { return id("block-scalar-only-newlines"); }
+        return id("litstr-lone-newline");
+    }
     if block && has(&|x| matches!(x, SV::TupleStruct(_) | SV::TupleVariant(..))) { return id("block-scalar-after-tuple-dash"); }
     if has(&|x| matches!(x, SV::UnitVariant(_, n) if n.chars().count() > o.fold_wrap)) { return id("unit-variant-auto-folded"); }
-    if block && has(&|x| matches!(x, SV::SpaceAfter(_))) { return id("space-after-block-string"); }
     if block && strs(&|s| s.trim_end_matches('\n').split('\n').find(|l| !l.is_empty()).map(|l| l.starts_with(' ')).unwrap_or(false)) { return id("block-scalar-indent-indicator"); }
-    if block && strs(&|s| s.trim_end_matches('\n').is_empty()) { return id("block-scalar-only-newlines"); }
     if has(&|x| matches!(x, SV::FoldStr(_))) { return id("foldstr-alters-data"); }
+    // `Some(empty mapping)` as a key: the typed deserializer reads an empty mapping in key position as `None` for `Option<T>`
+    // (de.rs `deserialize_option`, `key_empty_map_node`): a rule of the reader, not of the emitter
+    if has(&|x| matches!(x, SV::Map(_, es) if es.iter().any(|(k, _)| {
+        fn empty_map_under_some(k: &SV, under: bool) -> bool { match k {
+            SV::Some(v) => empty_map_under_some(v, true),
+            SV::Newtype(v) | SV::FlowMap(v) | SV::FlowSeq(v) | SV::SpaceAfter(v) => empty_map_under_some(v, under),
+            SV::Map(_, e) => under && e.is_empty(),
+            SV::Struct(e) => under && e.is_empty(),
+            _ => false } }
+        empty_map_under_some(k, false) }))) {
+        return id("option-empty-map-key");
+    }
+    // a key that is a one-entry mapping with a null-like key (`? null: z`): the deserializer takes it for an "explicit empty key
+    // captured as a one-entry mapping { null: V }" (de.rs, MapAccess::next_key_seed): key = empty mapping, value = V, the real value is
+    // dropped — a rule of the reader (also for the flow form `? {null: z}`), not of the emitter
+    if has(&|x| matches!(x, SV::Map(_, es) if es.iter().any(|(k, _)| {
+        fn nullish(k: &SV) -> bool { match k {
+            SV::Unit | SV::None => true,
+            SV::Some(v) | SV::Newtype(v) | SV::FlowMap(v) | SV::FlowSeq(v) | SV::SpaceAfter(v) => nullish(v),
+            SV::Str(s) | SV::LitStr(s) | SV::FoldStr(s) => s.is_empty() || s == "~" || s.eq_ignore_ascii_case("null"),
+            _ => false } }
+        fn one_null_entry(k: &SV) -> bool { match k {
+            SV::Some(v) | SV::Newtype(v) | SV::FlowMap(v) | SV::FlowSeq(v) | SV::SpaceAfter(v) => one_null_entry(v),
+            SV::Commented(v, _) => one_null_entry(v),
+            SV::Map(_, e) => e.len() == 1 && nullish(&e[0].0),
+            _ => false } }
+        one_null_entry(k) }))) {
+        return id("null-key-map-as-key");
+    }
     if has(&|x| matches!(x, SV::Map(_, es) if es.iter().any(|(k, _)| k.any(&|y| matches!(y, SV::Seq(_) | SV::Tuple(_) | SV::TupleStruct(_) | SV::Map(..) | SV::Struct(_) | SV::NewtypeVariant(..) | SV::TupleVariant(..) | SV::StructVariant(..) | SV::Commented(..)))))) {
         return id("complex-key");
     }
@@ -733,6 +778,7 @@ const SAFE_STRS: [&str; 6] = ["abc", "k", "x1", "hello", "zz9", "name"];
 const QUOTED_STRS: [&str; 22] = ["", "true", "y", "no", "null", "~", "12", "1.5", "0x1F", "a b", "a: b", "x#y", "a #b", "a,b", "-", "- a", "it's", "a\nb", "tab\there",
                                  "[x]", "key:", "é日本"];
 const LONG_TEXT: &str = "lorem ipsum dolor sit amet consectetur adipiscing elit sed do eiusmod tempor incididunt ut labore";
+const LONG_UNIT: &str = "lorem_ipsum_dolor sit amet consectetur adipiscing elit sed do eiusmod tempor incididunt ut labore";
 const FIELDS: [&str; 6] = ["a", "b", "c", "k", "f1", "name"];
 const VARIANTS: [&str; 4] = ["Va", "Vb", "Unit", "Data"];
 
@@ -1062,8 +1108,38 @@ fn witnesses() -> Vec<(SV, O)> {
         // C20-foldstr-alters-data
         (SV::FoldStr("a \nb and some more words to get over the minimum".into()), d),
         (SV::Struct(vec![("t", SV::FoldStr("a \nb".into()))]), d),
+        // regression witnesses of the repaired classes (each fails again under its old id when its fix is reverted)
+        (SV::Tuple(vec![SV::Commented(Box::new(SV::Bool(true)), "\0".into()), SV::Int(45)]), d),                       // comment-nul-truncates
+        (SV::Struct(vec![("t", SV::LitStr("a\0b".into())), ("u", SV::Int(1))]), d),                                    // litstr-nul
+        (SV::Struct(vec![("t", SV::LitStr("\n\n".into())), ("u", SV::Int(1))]), d),                                    // block-scalar-only-newlines
+        (SV::FlowSeq(Box::new(SV::Seq(vec![SV::LitStr("l".into())]))), d),                                             // block-string-in-flow
+        (SV::FlowMap(Box::new(SV::Struct(vec![("k", SV::NewtypeVariant("Nv", Box::new(SV::Int(1))))]))), d),            // variant-in-flow
+        (SV::Struct(vec![("k", SV::TupleStruct(vec![SV::LitStr("a\nb".into()), SV::Int(1)]))]), d),                    // block-scalar-after-tuple-dash
+        (SV::Seq(vec![SV::Struct(vec![("k", SV::SpaceAfter(Box::new(SV::UnitVariant("E", LONG_UNIT))))])]), d),        // unit-variant-auto-folded
         // transparent cases
         (SV::Struct(vec![("ports", SV::FlowSeq(Box::new(SV::Seq(vec![SV::Int(8080), SV::Int(8081)])))), ("note", SV::LitStr("line 1\nline 2".into())), ("s", SV::SpaceAfter(Box::new(s("x")))), ("z", SV::Int(1))]), d),
+    ]
+}
+
+/// C13 regression witnesses: one per repaired defect class (each fails again under its old id when its fix is reverted)
+fn witnesses13() -> Vec<(SV, O)> {
+    let d = O::default();
+    let i = |n: i64| SV::Int(n);
+    let l12 = || SV::Seq(vec![SV::Int(1), SV::Int(2)]);
+    vec![
+        (SV::Seq(vec![l12()]), O { indent: 1, ..d }),                                                                   // indent-step-1
+        (SV::Seq(vec![l12()]), O { indent: 3, ..d }),                                                                   // indent-step-ge3
+        (SV::Seq(vec![SV::Seq(vec![SV::Struct(vec![("k", i(1)), ("m", SV::Seq(vec![i(2)]))])])]), O { indent: 4, ..d }),
+        (SV::Struct(vec![("a", SV::Seq(vec![i(1)])), ("b", SV::Seq(vec![]))]), O { compact: true, ..d }),               // compact-list-indent
+        (SV::Map(true, vec![(l12(), i(1))]), O { compact: true, ..d }),
+        (SV::Map(true, vec![(SV::Seq(vec![]), l12())]), d),                                                             // complex-key
+        (SV::TupleVariant("Tv", vec![]), d),                                                                            // tuple-variant-empty
+        (SV::StructVariant("Sv", vec![]), d),                                                                           // struct-variant-empty
+        (SV::Struct(vec![("k", SV::TupleStruct(vec![])), ("z", i(9))]), d),                                             // tuple-struct-empty
+        (SV::Struct(vec![("k", SV::TupleVariant("Tv", vec![i(1)]))]), d),                                               // tuple-variant-position
+        (SV::Struct(vec![("k", SV::Seq(vec![SV::StructVariant("Sv", vec![("a", SV::Seq(vec![i(1)]))])]))]), d),         // struct-variant-position
+        (SV::TupleStruct(vec![SV::TupleStruct(vec![i(1)])]), d),                                                        // tuple-struct-position
+        (SV::Seq(vec![SV::Struct(vec![("k", SV::UnitVariant("E", LONG_UNIT))])]), d),                                   // unit-variant-auto-folded
     ]
 }
 
@@ -1074,6 +1150,7 @@ fn generate(a: &Args, wrappers: bool) -> i32 {
     let mut cx = Ctx { sink: Sink::new(&a.out, fname), prop, oracle: vec![], per_id: BTreeMap::new(), texts: Default::default(), distinct: Default::default(), erased: Default::default(), minimal_seen: Default::default(), per_id_records: BTreeMap::new() };
     let grid = O::grid();
     if wrappers { for (v, o) in witnesses() { cx.case("witness", &v, &o); } }
+    else { for (v, o) in witnesses13() { cx.case("witness", &v, &o); } }
     // exhaustive small trees
     let maxn = if a.thorough { 4 } else { 3 };
     let mut memo: Vec<Vec<SV>> = Vec::new();
